@@ -928,6 +928,18 @@ where
         slot_flag: SlotFlag,
         slots: Option<Box<Expr>>,
     ) -> Expr {
+        // the children move into a slot function that is neither async nor a generator
+        for elem in elems.iter().flatten() {
+            if let Some(span) = util::find_await_or_yield(&elem.expr) {
+                HANDLER.with(|handler| {
+                    handler.span_err(
+                        span,
+                        "`await` and `yield` can't be used in the children of a component: \
+                         they are evaluated later, inside a slot function.",
+                    )
+                });
+            }
+        }
         let mut props = vec![PropOrSpread::Prop(Box::new(Prop::KeyValue(KeyValueProp {
             key: PropName::Ident(quote_ident!("default")),
             value: Box::new(Expr::Arrow(ArrowExpr {
@@ -1614,7 +1626,18 @@ impl Visit for TypeDeclCollector<'_> {
 
 /// `h`, `Vue.h`: every dot-separated part must be an identifier
 fn is_valid_pragma(pragma: &str) -> bool {
-    pragma.split('.').all(is_valid_prop_ident)
+    let mut parts = pragma.split('.');
+    // the first part is a reference to a binding (or `this`), the others are property names
+    parts
+        .next()
+        .is_some_and(|first| first == "this" || is_valid_binding_ref(first))
+        && parts.all(is_valid_prop_ident)
+}
+
+/// An identifier that can be *referred to*: `class`, `import`, `delete`, ... are valid property
+/// names but not valid expressions.
+fn is_valid_binding_ref(name: &str) -> bool {
+    is_valid_prop_ident(name) && !Atom::from(name).is_reserved_in_any()
 }
 
 fn jsx_member_expr_to_expr(JSXMemberExpr { obj, prop, span }: &JSXMemberExpr) -> Expr {
@@ -1625,7 +1648,7 @@ fn jsx_member_expr_to_expr(JSXMemberExpr { obj, prop, span }: &JSXMemberExpr) ->
                 Expr::This(ThisExpr { span: ident.span })
             }
             JSXObject::Ident(ident) => {
-                if !is_valid_prop_ident(&ident.sym) {
+                if !is_valid_binding_ref(&ident.sym) {
                     HANDLER.with(|handler| {
                         handler.span_err(
                             ident.span,
